@@ -384,6 +384,7 @@ class Interp:
         self.max_depth = cfg.get('max_depth', 60)
         self.inline_other_units = cfg.get('inline_other_units', True)
         self.track_stores = cfg.get('track_stores', False)
+        self.forever_limit = cfg.get('forever_limit', 64)
         self.ctx = None
 
     # ---- exploration ---------------------------------------------------------
@@ -611,7 +612,7 @@ class Interp:
                 pass
             if inc is not None:
                 self.eval(inc, env)
-            if cond is None and iters > 64:
+            if cond is None and iters > self.forever_limit:
                 raise Infeasible('for(;;) bound')
 
     def exec_do(self, s, env):
